@@ -10,6 +10,7 @@ import (
 	"os"
 	"os/exec"
 	"path/filepath"
+	"sort"
 	"strings"
 	"sync/atomic"
 	"syscall"
@@ -690,14 +691,17 @@ func TestC28(t *testing.T) {
 
 	type universe struct {
 		n          int
-		maxObjects int // bound on un-released Lock objects per process (2 = the owner may acquire again)
-		depth      int // additionally: every enabled op sequence of exactly this length from the initial state (0 = none)
+		maxObjects int  // bound on un-released Lock objects per process (2 = the owner may acquire again)
+		depth      int  // additionally: every enabled op sequence of exactly this length from the initial state (0 = none)
+		pathsOnly  bool // the closure of this universe is part of an earlier one: only run the depth paths
 	}
 	// Quick: the property's own universe (3 processes, one Lock object each) and the
 	// re-acquiring owner with one contender. Thorough: both dimensions together, 4 processes, and all short histories.
-	universes := []universe{{3, 1, 0}, {2, 2, 0}}
+	universes := []universe{{3, 1, 0, false}, {2, 2, 0, false}}
 	if vr.Thorough() {
-		universes = []universe{{3, 1, 0}, {2, 2, 0}, {3, 2, 0}, {4, 1, 0}, {3, 1, 4}, {2, 2, 4}}
+		// 3-process closure first (its transitions ordered: one Lock object per process before
+		// re-acquisition; it contains the two quick universes), then 4 processes, then all short histories.
+		universes = []universe{{3, 2, 0, false}, {4, 1, 0, false}, {3, 1, 4, true}, {2, 2, 4, true}}
 	}
 	r.Rule("reference model (alive set, un-released Lock objects per process <= 2, POSIX owner) explored by BFS to closure over ops " +
 		"{acquire,release,releaseold,kill,exit,respawn}_i plus race_all (all idle live processes attempt at the same instant; exactly one must win iff the lock is free); EVERY model transition (state x enabled op) is executed on fresh real processes " +
@@ -827,12 +831,36 @@ func TestC28(t *testing.T) {
 				}
 			}
 		}
+		// Transitions of the property's own sub-model (nobody ever has two Lock objects) first.
+		offDiscipline := func(path []lockOp) bool {
+			m := initialLockModel(u.n)
+			for _, op := range path {
+				if op.Kind != opRace {
+					m.apply(op)
+				}
+				if !m.disciplined() {
+					return true
+				}
+			}
+			return false
+		}
+		sort.SliceStable(jobs, func(a, b int) bool {
+			return !offDiscipline(jobs[a].path) && offDiscipline(jobs[b].path)
+		})
+		if u.pathsOnly {
+			jobs = nil
+		}
 		if time.Now().After(deadline) {
 			capped = append(capped, fmt.Sprintf("universe n=%d max=%d depth=%d not started", u.n, u.maxObjects, u.depth))
 			continue
 		}
-		totalStates += int64(len(all))
+		if !u.pathsOnly {
+			totalStates += int64(len(all))
+		}
 		for _, j := range []int{0, len(jobs) / 3, 2 * len(jobs) / 3, len(jobs) - 1} {
+			if len(jobs) == 0 {
+				break
+			}
 			r.Sample(map[string]interface{}{"processes": u.n, "max_lock_objects": u.maxObjects, "ops": pathString(jobs[j].path)})
 		}
 		var skipped int64
